@@ -1873,3 +1873,17 @@ package resolve
 //@   at call Writer.Write: assert {a.string.value.puts.no.raw.control.byte.into.the.request} g_str ==> (forall k in 0..len(arg1) :: arg1[k] >= 32)
 //@   modifies *, count(*)
 //@   safety none
+
+// ----------------------------------------------------------------------------------------------
+// C10, @defer in lists: a defer batch looks for its fields below every field that can hold objects - an object, or a
+// list whose innermost item is an object. A field is refused only after its innermost kind was seen to be neither.
+//@ func Resolvable.fieldNodeKindAllowsSeek
+//@   requires field != nil
+//@   ghost var g_last int = 0
+//@   at call Node.NodeKind: ghost g_last = result
+//@   ensures {refused.only.for.an.innermost.kind.that.is.no.object} !result ==> g_last != NodeKindObject && g_last != NodeKindArray
+//@   ensures {an.object.is.sought} nodeKind(field.Value) == NodeKindObject ==> result
+//@   modifies global(ext)
+//@   safety none
+//@   loop 0:
+//@     invariant true
